@@ -152,6 +152,37 @@ def run(ctx, rep):
               "a re-sized stake that is filled without the compensation overdraws the order (remaining < 0 when SP is below the limit)",
               cfgs.fmt_path(cfgs.path(resize[0].id, fills[0].id, [comp[0].id] if comp else [])) if (resize and fills and not good) else None)
     void_group(ctx, rep, "R2")
+    # the requested size is the fixed side of the equation: the order that replaces another one gets an order
+    # type of its own (a shared one would let the replacement's size overwrite the replaced order's), and nothing
+    # of the replaced order is written while the replacement is built
+    cr = prog.own_method("Trade", "create_order_replacement")
+    from sa.kinds import resolve_local
+    ctor = [c for c in walk_calls(cr.node.body) if call_name(c) == "BetfairOrder"]
+    good = len(ctor) == 1
+    if good:
+        kws = {k.arg: k.value for k in ctor[0].keywords}
+        ot = resolve_local(cr, kws.get("order_type")) if kws.get("order_type") is not None else None
+        good = isinstance(ot, ast.Call) and call_name(ot) == "LimitOrder"
+        if good:
+            okw = {k.arg: utext(k.value) for k in ot.keywords}
+            good = okw.get("price") == cr.params[2] and okw.get("size") == cr.params[3]
+    rep.check(good, "R2", key(cr, None, "the replacing order has an order type of its own, with the new price and size"), cr)
+    old_p = cr.params[1]
+    writes = []
+    for st in walk_nodes(cr.node.body, (ast.Assign, ast.AugAssign, ast.Delete)):
+        for t, k in store_targets(st):
+            b = t
+            while isinstance(b, (ast.Attribute, ast.Subscript)):
+                b = b.value
+            if isinstance(b, ast.Name):
+                src = resolve_local(cr, b)
+                r = src
+                while isinstance(r, (ast.Attribute, ast.Subscript)):
+                    r = r.value
+                if isinstance(r, ast.Name) and r.id == old_p:
+                    writes.append(utext(st))
+    rep.check(not writes, "R2", key(cr, None, "building the replacement writes nothing of the replaced order"), cr, None,
+              "; ".join(writes))
 
     # ------------------------------------------------------------------ R3 terminal exits of place()
     pl = prog.own_method("SimulatedOrder", "place")
